@@ -405,6 +405,353 @@ Definition example_tree : list node :=
     Node (bs "pub"%string) true [Node (bs "a.txt"%string) false []];
     Node (bs "top.txt"%string) false [] ].
 
+(* ====================================================================================
+   BLOCK: a server block with several addresses (keys).  casket.executeDirectives runs, for each
+   directive of plugin.go's list, the directive's setup once per KEY of the block; every key has
+   its own SiteConfig (InspectServerBlocks makes one per key, HiddenFiles empty), so what a setup
+   does to "the" config it does to the config of the key it was called for.
+   ==================================================================================== *)
+Record block_site := { bk_hide : hide_site;                 (* internal / browse tokens of the block *)
+                       bk_rules : option (list rule) }.     (* basicauth tokens of the block, parsed *)
+(* what one address ends up with: its hide lists, the Internal{Paths} and BasicAuth{Rules} installed *)
+Record addr_state := { as_setup : setup_state;
+                       as_internal : option (list bytes);
+                       as_rules : option (list rule) }.
+Definition addr_init (b : block_site) : addr_state :=
+  {| as_setup := {| ss_hidden := hs_initial (bk_hide b); ss_browse := None |};
+     as_internal := None; as_rules := None |}.
+Definition addr_step (b : block_site) (st : addr_state) (name : bytes) : addr_state :=
+  {| as_setup := setup_step (bk_hide b) (as_setup st) name;
+     as_internal := if beq name (bs "internal"%string)
+                    then match hs_internal (bk_hide b) with Some ps => Some ps | None => as_internal st end
+                    else as_internal st;
+     as_rules := if beq name (bs "basicauth"%string)
+                 then match bk_rules b with Some rs => Some rs | None => as_rules st end
+                 else as_rules st |}.
+(* the loop over the keys for one directive: each key's setup works on that key's own state *)
+Definition keys_loop (b : block_site) (name : bytes) (sts : list addr_state) : list addr_state :=
+  map (fun st => addr_step b st name) sts.
+Definition block_setups (dirs : list bytes) (b : block_site) (n : nat) : list addr_state :=
+  fold_left (fun sts name => keys_loop b name sts) dirs (repeat (addr_init b) n).
+(* a site with a single address *)
+Definition addr_run (dirs : list bytes) (b : block_site) : addr_state :=
+  fold_left (addr_step b) dirs (addr_init b).
+
+(* the variant in which internal's setup appends its paths under c.OncePerServerBlock (a sync.Once
+   shared by the keys of the block): the append happens for the first key only.  NOT the code. *)
+Definition addr_step_once (b : block_site) (first : bool) (st : addr_state) (name : bytes) : addr_state :=
+  if beq name (bs "internal"%string) && negb first
+  then {| as_setup := as_setup st; as_internal := as_internal (addr_step b st name); as_rules := as_rules st |}
+  else addr_step b st name.
+Fixpoint keys_loop_once (b : block_site) (name : bytes) (first : bool) (sts : list addr_state) : list addr_state :=
+  match sts with
+  | [] => []
+  | st :: r => addr_step_once b first st name :: keys_loop_once b name false r
+  end.
+Definition block_setups_once (dirs : list bytes) (b : block_site) (n : nat) : list addr_state :=
+  fold_left (fun sts name => keys_loop_once b name true sts) dirs (repeat (addr_init b) n).
+
+(* the hide lists of the site a case was observed on: a single-address site, or address j of a
+   block of n addresses *)
+Definition hide_state (blk : option (nat * nat)) (s : hide_site) : option setup_state :=
+  match blk with
+  | None => Some (run_setups gen_directives s)
+  | Some (n, j) => option_map as_setup
+                     (nth_error (block_setups gen_directives {| bk_hide := s; bk_rules := None |} n) j)
+  end.
+
+(* ====================================================================================
+   CRED: htpasswd files and the credential check over request sequences
+   (basicauth.GetHtpasswdMatcher, parseHtpasswd, github.com/jimstudt/http-authentication/basic)
+   ==================================================================================== *)
+Inductive enc := EPlain (d : bytes) | ESha (b64 : bytes) | EApr1 (salt hashed : bytes).
+(* the hash functions are parameters: h_sha pw = base64 text of SHA-1(pw); h_apr1 salt pw = the 22
+   characters of Apache's MD5 scheme *)
+Record hashes := { h_sha : bytes -> bytes; h_apr1 : bytes -> bytes -> bytes }.
+Definition PLAIN_TAG : bytes := bs "{PLAIN}"%string.
+Definition enc_accepts (H : hashes) (e : enc) (pw : bytes) : bool :=
+  match e with
+  | EPlain d => beq pw d || beq (PLAIN_TAG ++ pw) d
+  | ESha b => beq (h_sha H pw) b
+  | EApr1 salt hashed => beq (h_apr1 H salt pw) hashed
+  end.
+
+Fixpoint index_of (c : N) (s : bytes) : option nat :=
+  match s with
+  | [] => None
+  | x :: r => if x =? c then Some O else option_map S (index_of c r)
+  end.
+Definition b64_char (c : N) : bool :=
+  ((65 <=? c) && (c <=? 90)) || ((97 <=? c) && (c <=? 122)) || ((48 <=? c) && (c <=? 57)) || (c =? 43) || (c =? 47).
+(* base64 text of exactly 20 bytes: 27 alphabet characters and one '=' *)
+Definition sha_wellformed (b : bytes) : bool :=
+  Nat.eqb (length b) 28 && forallb b64_char (firstn 27 b) && beq (skipn 27 b) [61].
+(* basic.DefaultSystems = AcceptMd5, AcceptSha, RejectBcrypt, AcceptPlain; None = the line is an error *)
+Definition classify (e : bytes) : option enc :=
+  if has_prefix e (bs "$apr1$"%string) then
+    let rest := skipn 6 e in
+    match index_of 36 rest with
+    | Some i => Some (EApr1 (firstn i rest) (skipn (S i) rest))
+    | None => None
+    end
+  else if has_prefix e (bs "{SHA}"%string) then
+    (if sha_wellformed (skipn 5 e) then Some (ESha (skipn 5 e)) else None)
+  else if has_prefix e (bs "$2y$"%string) then None
+  else Some (EPlain e).
+
+Definition is_space (c : N) : bool := (c =? 32) || ((9 <=? c) && (c <=? 13)).
+Fixpoint trim_left (s : bytes) : bytes :=
+  match s with
+  | c :: r => if is_space c then trim_left r else s
+  | [] => []
+  end.
+Definition trim (s : bytes) : bytes := rev (trim_left (rev (trim_left s))).
+
+(* parseHtpasswd: the entries in file order (a map in Go: the LAST line of a user counts) *)
+Fixpoint parse_lines (ls : list bytes) : option (list (bytes * enc)) :=
+  match ls with
+  | [] => Some []
+  | l0 :: r =>
+      let l := trim l0 in
+      match l with
+      | [] => parse_lines r
+      | c :: _ =>
+          if c =? 35 then parse_lines r
+          else match index_of 58 l with
+               | None | Some O => None
+               | Some i => match classify (skipn (S i) l), parse_lines r with
+                           | Some e, Some es => Some ((firstn i l, e) :: es)
+                           | _, _ => None
+                           end
+               end
+      end
+  end.
+Definition parse_htpasswd (text : bytes) : option (list (bytes * enc)) := parse_lines (split 10 text).
+Fixpoint last_entry (u : bytes) (es : list (bytes * enc)) (acc : option enc) : option enc :=
+  match es with
+  | [] => acc
+  | (a, e) :: r => last_entry u r (if beq a u then Some e else acc)
+  end.
+
+(* THE pure function: what (file contents, user, password) decide.  None = no matcher (unparsable
+   file or unknown user: the site does not start) *)
+Definition file_accepts (H : hashes) (text user pw : bytes) : option bool :=
+  match parse_htpasswd text with
+  | None => None
+  | Some es => match last_entry user es None with
+               | None => None
+               | Some e => Some (enc_accepts H e pw)
+               end
+  end.
+
+(* ---- the state GetHtpasswdMatcher keeps between calls: parsed files by name, each with the
+   stamp (modification time, size) the file had when it was read ---- *)
+Record disk_file := { df_stamp : N; df_text : bytes }.
+Definition disk := list (bytes * disk_file).
+Record parsed := { pf_stamp : N; pf_entries : list (bytes * enc) }.
+Definition cache := list (bytes * parsed).
+Fixpoint assoc {A} (k : bytes) (l : list (bytes * A)) : option A :=
+  match l with [] => None | (a, v) :: r => if beq a k then Some v else assoc k r end.
+
+(* GetHtpasswdMatcher(filename, username): the matcher handed to the rule, and the cache afterwards *)
+Definition get_matcher (H : hashes) (d : disk) (c : cache) (fname user : bytes)
+  : option (bytes -> bool) * cache :=
+  match assoc fname d with
+  | None => (None, c)                                           (* open error *)
+  | Some f =>
+      let fresh := match assoc fname c with
+                   | Some p => if pf_stamp p =? df_stamp f then Some p else None
+                   | None => None
+                   end in
+      let got := match fresh with
+                 | Some p => Some (p, c)
+                 | None => match parse_htpasswd (df_text f) with
+                           | Some es => let p := {| pf_stamp := df_stamp f; pf_entries := es |} in
+                                        Some (p, (fname, p) :: c)
+                           | None => None
+                           end
+                 end in
+      match got with
+      | None => (None, c)
+      | Some (p, c') => match last_entry user (pf_entries p) None with
+                        | Some e => (Some (enc_accepts H e), c')
+                        | None => (None, c')
+                        end
+      end
+  end.
+
+(* a basicauth rule as the Casketfile gives it: password in the clear, or htpasswd=<file> *)
+Inductive pwsrc := PwPlain (pw : bytes) | PwFile (fname : bytes).
+Record cfg_rule := { cr_resources : list bytes; cr_exclude : list bytes; cr_user : bytes; cr_pw : pwsrc }.
+(* the rule as installed: the matcher is bound when the site is set up *)
+Record live_rule := { lr_resources : list bytes; lr_exclude : list bytes; lr_user : bytes;
+                      lr_accept : bytes -> bool }.
+
+(* basicAuthParse over the rules of a site; None = setup error (the site does not start) *)
+Fixpoint setup_rules (H : hashes) (d : disk) (c : cache) (rs : list cfg_rule)
+  : option (list live_rule) * cache :=
+  match rs with
+  | [] => (Some [], c)
+  | r :: rest =>
+      let '(m, c1) := match cr_pw r with
+                      | PwPlain p => (Some (beq p), c)       (* PlainMatcher: equality (of SHA-1 digests) *)
+                      | PwFile f => get_matcher H d c f (cr_user r)
+                      end in
+      match m with
+      | None => (None, c1)
+      | Some acc =>
+          let '(ls, c2) := setup_rules H d c1 rest in
+          (option_map (cons {| lr_resources := cr_resources r; lr_exclude := cr_exclude r;
+                               lr_user := cr_user r; lr_accept := acc |}) ls, c2)
+      end
+  end.
+
+(* a request's credentials *)
+Record creds := { c_user : bytes; c_pw : bytes }.
+Definition rule_for (auth : option creds) (lr : live_rule) : rule :=
+  {| r_resources := lr_resources lr; r_exclude := lr_exclude lr;
+     r_creds_ok := match auth with
+                   | Some a => beq (c_user a) (lr_user lr) && lr_accept lr (c_pw a)
+                   | None => false
+                   end |}.
+Definition live_decide (cs opt : bool) (path : bytes) (auth : option creds) (ls : list live_rule) : decision :=
+  basicauth_decide cs opt path (map (rule_for auth) ls).
+
+(* the same decision as a function of the file contents alone (no cache, no history) *)
+Definition pure_accept (H : hashes) (d : disk) (r : cfg_rule) (pw : bytes) : bool :=
+  match cr_pw r with
+  | PwPlain p => beq p pw
+  | PwFile f => match assoc f d with
+                | Some df => match file_accepts H (df_text df) (cr_user r) pw with Some b => b | None => false end
+                | None => false
+                end
+  end.
+Definition pure_rule (H : hashes) (d : disk) (auth : option creds) (r : cfg_rule) : rule :=
+  {| r_resources := cr_resources r; r_exclude := cr_exclude r;
+     r_creds_ok := match auth with
+                   | Some a => beq (c_user a) (cr_user r) && pure_accept H d r (c_pw a)
+                   | None => false
+                   end |}.
+Definition pure_decide (H : hashes) (d : disk) (rs : list cfg_rule) (cs opt : bool) (path : bytes)
+           (auth : option creds) : decision :=
+  basicauth_decide cs opt path (map (pure_rule H d auth) rs).
+Definition rules_loadable (H : hashes) (d : disk) (rs : list cfg_rule) : bool :=
+  forallb (fun r => match cr_pw r with
+                    | PwPlain _ => true
+                    | PwFile f => match assoc f d with
+                                  | Some df => match file_accepts H (df_text df) (cr_user r) [] with Some _ => true | None => false end
+                                  | None => false
+                                  end
+                    end) rs.
+
+(* what happens to a running site *)
+Inductive event :=
+| EReq (opt : bool) (path : bytes) (auth : option creds)      (* a request *)
+| EWrite (fname : bytes) (f : disk_file)                      (* the file is replaced on disk *)
+| EReload.                                                    (* the site is set up again (restart) *)
+
+(* the server: the disk, the process-wide cache, the rules as installed at the last (successful)
+   setup, and the disk as it was at that setup (ghost: what "the current file" means) *)
+Record srv := { sv_disk : disk; sv_cache : cache; sv_live : list live_rule; sv_loaded : disk }.
+Fixpoint set_assoc {A} (k : bytes) (v : A) (l : list (bytes * A)) : list (bytes * A) :=
+  match l with
+  | [] => [(k, v)]
+  | (a, x) :: r => if beq a k then (k, v) :: r else (a, x) :: set_assoc k v r
+  end.
+Definition srv_step (H : hashes) (cs : bool) (rs : list cfg_rule) (s : srv) (e : event) : srv * option decision :=
+  match e with
+  | EReq opt path auth => (s, Some (live_decide cs opt path auth (sv_live s)))
+  | EWrite fname f => ({| sv_disk := set_assoc fname f (sv_disk s); sv_cache := sv_cache s;
+                          sv_live := sv_live s; sv_loaded := sv_loaded s |}, None)
+  | EReload => match setup_rules H (sv_disk s) (sv_cache s) rs with
+               | (Some ls, c) => ({| sv_disk := sv_disk s; sv_cache := c; sv_live := ls; sv_loaded := sv_disk s |}, None)
+               | (None, c) => ({| sv_disk := sv_disk s; sv_cache := c; sv_live := sv_live s; sv_loaded := sv_loaded s |}, None)
+               end
+  end.
+Fixpoint srv_run (H : hashes) (cs : bool) (rs : list cfg_rule) (s : srv) (evs : list event) : list decision :=
+  match evs with
+  | [] => []
+  | e :: r => let '(s', o) := srv_step H cs rs s e in
+              match o with Some dcn => dcn :: srv_run H cs rs s' r | None => srv_run H cs rs s' r end
+  end.
+(* the reference: every request decided from its own credentials and the files as they were at the
+   last successful setup; nothing else is remembered *)
+Fixpoint ref_run (H : hashes) (cs : bool) (rs : list cfg_rule) (cur loaded : disk) (evs : list event) : list decision :=
+  match evs with
+  | [] => []
+  | EReq opt path auth :: r => pure_decide H loaded rs cs opt path auth :: ref_run H cs rs cur loaded r
+  | EWrite fname f :: r => ref_run H cs rs (set_assoc fname f cur) loaded r
+  | EReload :: r => ref_run H cs rs cur (if rules_loadable H cur rs then cur else loaded) r
+  end.
+
+(* the cache is consistent with the disk's history: a parse kept under a stamp is the parse of every
+   text that file name ever had on disk under that stamp ("the stamp changes when the content does") *)
+Definition cache_honest (c : cache) (d : disk) : Prop :=
+  forall fname p f, assoc fname c = Some p -> assoc fname d = Some f -> pf_stamp p = df_stamp f ->
+                    parse_htpasswd (df_text f) = Some (pf_entries p).
+(* every write of the sequence brings a stamp that file never had before (in the cache or on disk) *)
+Fixpoint fresh_stamps (used : list (bytes * N)) (evs : list event) : Prop :=
+  match evs with
+  | [] => True
+  | EWrite fname f :: r => ~ In (fname, df_stamp f) used /\ fresh_stamps ((fname, df_stamp f) :: used) r
+  | _ :: r => fresh_stamps used r
+  end.
+
+(* every stamp a file name has (on disk) or is remembered with (in the cache) is in [used] *)
+Definition stamps_known (used : list (bytes * N)) (c : cache) (d : disk) : Prop :=
+  (forall fname p, assoc fname c = Some p -> In (fname, pf_stamp p) used) /\
+  (forall fname f, assoc fname d = Some f -> In (fname, df_stamp f) used).
+Definition stamps_of (d : disk) : list (bytes * N) := map (fun e => (fst e, df_stamp (snd e))) d.
+(* a server state the code can be in: the cache is honest, and the installed rules are those the
+   files gave at the last successful setup *)
+Record srv_ok (H : hashes) (rs : list cfg_rule) (used : list (bytes * N)) (s : srv) : Prop := {
+  ok_honest : cache_honest (sv_cache s) (sv_disk s);
+  ok_known : stamps_known used (sv_cache s) (sv_disk s);
+  ok_live : forall auth, map (rule_for auth) (sv_live s) = map (pure_rule H (sv_loaded s) auth) rs }.
+(* what GetHtpasswdMatcher hands out stands for file_accepts on the file's text *)
+Definition matcher_ok (H : hashes) (text user : bytes) (m : option (bytes -> bool)) : Prop :=
+  match m with
+  | Some acc => forall pw, file_accepts H text user pw = Some (acc pw)
+  | None => forall pw, file_accepts H text user pw = None
+  end.
+
+(* hash functions given by a finite table (salt or "{SHA}", password) -> digest text *)
+Fixpoint tbl_find (k1 k2 : bytes) (t : list (bytes * bytes * bytes)) : bytes :=
+  match t with
+  | [] => []
+  | (a, b, v) :: r => if beq a k1 && beq b k2 then v else tbl_find k1 k2 r
+  end.
+Definition tbl_hashes (t : list (bytes * bytes * bytes)) : hashes :=
+  {| h_sha := fun pw => tbl_find (bs "{SHA}"%string) pw t; h_apr1 := fun salt pw => tbl_find salt pw t |}.
+
+(* one step of a CSeq case, with what was observed *)
+Inductive seq_step :=
+| QReq (opt : bool) (path : bytes) (auth : option creds)
+       (truth : list bool)              (* per rule of the site: by the GENERATOR's knowledge of who has which password
+                                           now, are the request's credentials that rule's user's *)
+       (own : bytes)                    (* canonical name of the planted resource the request asks for ([]: none) *)
+       (obs_status : N) (obs_leaked : list bytes)   (* status; resources whose planted tokens the answer contains *)
+| QWrite (fname : bytes) (f : disk_file)
+| QReload.
+Definition seq_event (q : seq_step) : event :=
+  match q with
+  | QReq opt path auth _ _ _ _ => EReq opt path auth
+  | QWrite fname f => EWrite fname f
+  | QReload => EReload
+  end.
+Fixpoint seq_obs (qs : list seq_step) : list bool :=       (* per request: answered 401 *)
+  match qs with
+  | [] => []
+  | QReq _ _ _ _ _ st _ :: r => (st =? 401) :: seq_obs r
+  | _ :: r => seq_obs r
+  end.
+Fixpoint bool_list_eqb (a b : list bool) : bool :=
+  match a, b with
+  | [], [] => true
+  | x :: a', y :: b' => Bool.eqb x y && bool_list_eqb a' b'
+  | _, _ => false
+  end.
+
 (* ---- cases ---- *)
 Inductive case :=
 | CMatches (cs : bool) (p base : bytes) (obs : bool)
@@ -432,14 +779,61 @@ Inductive case :=
 | CHide (ipaths : list bytes) (p : bytes) (is_archive : bool) (kids : list node) (obs : list bytes)
 (* full site with `internal ipaths` and no content handler but the static file server: canonical
    names of the files whose planted tokens the decoded answer to GET p contains *)
-| CServe (ipaths idx exts files dirs : list bytes) (p : bytes) (obs : list bytes).
+| CServe (ipaths idx exts files dirs : list bytes) (p : bytes) (obs : list bytes)
+(* a server block with n addresses: the same request sent to every address, each address's answer
+   judged as a single site's would be (CDisc / CHide / CServe), in the order of the block's keys *)
+| CBlock (n : nat) (per_addr : list case)
+(* basicauth.GetHtpasswdMatcher on a file with this text, for this user, applied to these passwords;
+   truth: what the generator knows (None: it wrote a file that cannot be loaded for this user) *)
+| CHtMatch (text user : bytes) (tbl : list (bytes * bytes * bytes)) (pws : list bytes)
+           (truth obs : option (list bool))
+(* a running site with htpasswd-file rules: a sequence of requests, file replacements and restarts *)
+| CSeq (cs : bool) (rules : list cfg_rule) (tbl : list (bytes * bytes * bytes)) (disk0 : disk)
+       (steps : list seq_step).
 
 Definition res_violation (cs opt : bool) (rules : list rule) (ipaths : list bytes) (f : bytes) : bool :=
   (negb opt && existsb (protects_res cs f) rules &&
    negb (existsb (fun ru => protects_res cs f ru && r_creds_ok ru) rules))
   || existsb (under cs f) ipaths.
 
-Definition judge (c : case) : N :=
+Definition opt_bools_eqb (a b : option (list bool)) : bool :=
+  match a, b with
+  | None, None => true
+  | Some x, Some y => bool_list_eqb x y
+  | _, _ => false
+  end.
+Fixpoint all_some (l : list (option bool)) : option (list bool) :=
+  match l with
+  | [] => Some []
+  | Some b :: r => option_map (cons b) (all_some r)
+  | None :: _ => None
+  end.
+Definition is_deny (d : decision) : bool := match d with Deny401 => true | Pass => false end.
+
+(* the clause of the property a request of a sequence is held to, on the implementation's own answer:
+   [truth] = the rules with the generator's knowledge of whether THIS request's credentials are the
+   rule's user's current ones (truth_rules).  Not entitled: 401 and nothing of a protected resource; entitled (and
+   not OPTIONS): served normally, 200 with the resource asked for *)
+Fixpoint truth_rules (rs : list cfg_rule) (bits : list bool) : list rule :=
+  match rs, bits with
+  | r :: rs', b :: bits' => {| r_resources := cr_resources r; r_exclude := cr_exclude r; r_creds_ok := b |}
+                            :: truth_rules rs' bits'
+  | r :: rs', [] => {| r_resources := cr_resources r; r_exclude := cr_exclude r; r_creds_ok := false |}
+                    :: truth_rules rs' []
+  | [], _ => []
+  end.
+Definition step_ok (cs : bool) (rs : list cfg_rule) (q : seq_step) : bool :=
+  match q with
+  | QReq opt path auth bits own st leaked =>
+      let truth := truth_rules rs bits in
+      let denied := negb opt && existsb (protects cs path) truth &&
+                    negb (existsb (fun ru => protects cs path ru && r_creds_ok ru) truth) in
+      negb (existsb (res_violation cs opt truth []) leaked) &&
+      (if denied then (st =? 401) else opt || beq own [] || ((st =? 200) && memb own leaked))
+  | _ => true
+  end.
+
+Definition judge_at (blk : option (nat * nat)) (c : case) : N :=
   match c with
   | CMatches cs p base obs => verdict (Bool.eqb (path_matches cs p base) obs) true
   | CAuth cs opt path rules obs =>
@@ -484,14 +878,45 @@ Definition judge (c : case) : N :=
       let d := resolved p in
       let full := map (child_path d) obs in
       let spec := forallb (outside_internal ipaths) full in
-      match browse_hide s with
-      | Some h => let exp := if is_arc then map fst (archive h d kids) else listing h d kids in
-                  verdict (same_set exp full) spec
-      | None => verdict false spec
+      match option_map ss_browse (hide_state blk s) with
+      | Some (Some h) => let exp := if is_arc then map fst (archive h d kids) else listing h d kids in
+                         verdict (same_set exp full) spec
+      | _ => verdict false spec
       end
   | CServe ipaths idx exts files dirs p obs =>
       let s := {| hs_initial := []; hs_internal := Some ipaths; hs_browse := false |} in
-      let exp := if internal_blocks false p ipaths then []
-                 else match fs_serve (fs_hide s) idx exts files dirs p with Some f => [f] | None => [] end in
-      verdict (same_set exp obs) (forallb (outside_internal ipaths) obs)
+      let spec := forallb (outside_internal ipaths) obs in
+      match hide_state blk s with
+      | Some st =>
+          let exp := if internal_blocks false p ipaths then []
+                     else match fs_serve (ss_hidden st) idx exts files dirs p with Some f => [f] | None => [] end in
+          verdict (same_set exp obs) spec
+      | None => verdict false spec
+      end
+  | CBlock _ _ => 1                                   (* blocks do not nest *)
+  | CHtMatch text user tbl pws truth obs =>
+      let m := all_some (map (file_accepts (tbl_hashes tbl) text user) pws) in
+      verdict (opt_bools_eqb m obs) (opt_bools_eqb truth obs)
+  | CSeq cs rules tbl d0 steps =>
+      let H := tbl_hashes tbl in
+      let spec := forallb (step_ok cs rules) steps in
+      match setup_rules H d0 [] rules with
+      | (Some ls, c) =>
+          let s0 := {| sv_disk := d0; sv_cache := c; sv_live := ls; sv_loaded := d0 |} in
+          let m := srv_run H cs rules s0 (map seq_event steps) in
+          verdict (bool_list_eqb (map is_deny m) (seq_obs steps)) spec
+      | (None, _) => verdict false spec               (* the case is emitted for a site that started *)
+      end
+  end.
+
+Fixpoint judge_addrs (n j : nat) (l : list case) : N :=
+  match l with
+  | [] => 0
+  | c :: r => N.lor (judge_at (Some (n, j)) c) (judge_addrs n (S j) r)
+  end.
+
+Definition judge (c : case) : N :=
+  match c with
+  | CBlock n l => if Nat.eqb (length l) n && Nat.leb 2 n then judge_addrs n 0 l else 1
+  | _ => judge_at None c
   end.
